@@ -213,6 +213,7 @@ def run(ctx):
     corpus = [("chain", ("chain", ("leaf", 1, sp.SQL, [a], [{a: 1}], (0, None)), ("leaf", 2, sp.SQL, [a], [{a: 2}], (0, None))),
                ("leaf", 3, sp.SQL, [a], [{a: 3}], (0, None)))]
     corpus += sp.sorted_then_sequences(ctx.tier != "quick")
+    corpus += sp.op_sequences(ctx.tier != "quick")
     n += len(corpus)
     for i in range(n):
         if i < len(corpus):
